@@ -140,6 +140,12 @@ func verifC13Run(t *testing.T, cs verifC13Case, w *bufio.Writer) {
 					wt.Put(verifStr(a[0]), verifStr(a[1]))
 				case "del":
 					wt.Delete(verifStr(a[0]))
+				case "batch":
+					var evs [][3]string
+					if err := json.Unmarshal(a[0], &evs); err != nil {
+						t.Fatal(err)
+					}
+					wt.Batch(evs)
 				case "reload":
 					var kvs [][2]string
 					if err := json.Unmarshal(a[0], &kvs); err != nil {
